@@ -22,6 +22,7 @@ import (
 	"net"
 	"net/http"
 	"sync"
+	"sync/atomic"
 )
 
 // HostPool is a collection of UpstreamHosts.
@@ -84,14 +85,16 @@ func (r *LeastConn) Select(pool HostPool, request *http.Request) *UpstreamHost {
 			continue
 		}
 
-		if host.Conns < leastConn {
-			leastConn = host.Conns
+		// Conns is updated concurrently, so read it atomically (and only once)
+		conns := atomic.LoadInt64(&host.Conns)
+		if conns < leastConn {
+			leastConn = conns
 			count = 0
 		}
 
 		// Among hosts with same least connections, perform a reservoir
 		// sample: https://en.wikipedia.org/wiki/Reservoir_sampling
-		if host.Conns == leastConn {
+		if conns == leastConn {
 			count++
 			if (rand.Int() % count) == 0 {
 				bestHost = host
